@@ -57,6 +57,10 @@ class SimTransport(asyncio.Transport):
         self.bytes_written = 0
         self._eof_sent = False
         self._inq = []  # client bytes waiting in the "kernel" while the reader is paused
+        # opt-in (conn["write_buffer"]): the transport's high-water mark - while the client is not reading, writes are taken into the buffer
+        # and only when it holds this much is the protocol told to pause
+        self.capacity = None
+        self._proto_paused = False
 
     # ---- Transport API ------------------------------------------------------------------
     def is_closing(self):
@@ -66,12 +70,26 @@ class SimTransport(asyncio.Transport):
         if self._closing:
             return
         self._closing = True
-        self.closed_at = self._loop.time()
         self.trace.ev("net", "srv_close")
+        if self.paused and self.pending:
+            # as the selector transport: what is buffered is flushed first; with a peer that does not read, connection_lost() - and with it
+            # wait_closed() - comes only once it reads again, goes away, or the transport is aborted
+            self._close_waits_for_flush = True
+            self.trace.ev("net", "srv_close_waits_for_flush", n=len(self.pending))
+            return
+        self.closed_at = self._loop.time()
         self._loop.call_soon(self._call_lost, None)
 
     def abort(self):
-        self.close()
+        if self._lost:
+            return
+        self._closing = True
+        self.pending = bytearray()
+        self._close_waits_for_flush = False
+        if self.closed_at is None:
+            self.closed_at = self._loop.time()
+        self.trace.ev("net", "srv_abort")
+        self._loop.call_soon(self._call_lost, None)
 
     def _call_lost(self, exc):
         if self._lost:
@@ -99,6 +117,9 @@ class SimTransport(asyncio.Transport):
         if self.paused and self._jit_left == 0:
             self.pending += data
             self.trace.ev("net", "write_held", n=len(data))
+            if self.capacity and not self._proto_paused and len(self.pending) >= self.capacity:
+                self._proto_paused = True
+                self._protocol.pause_writing()
             return
         if self._jit_left:
             self.pending += data
@@ -170,7 +191,8 @@ class SimTransport(asyncio.Transport):
         if not self.paused:
             self.paused = True
             self.trace.ev("client", "pause")
-            if self._jit_left == 0 and not self._lost:
+            if self._jit_left == 0 and not self._lost and (not self.capacity or len(self.pending) >= self.capacity):
+                self._proto_paused = True
                 self._protocol.pause_writing()
 
     def net_resume(self):
@@ -181,7 +203,14 @@ class SimTransport(asyncio.Transport):
                 if self.pending:
                     d, self.pending = bytes(self.pending), bytearray()
                     self._deliver(d)
-                self._protocol.resume_writing()
+                if getattr(self, "_close_waits_for_flush", False):
+                    self._close_waits_for_flush = False
+                    self.closed_at = self._loop.time()
+                    self._loop.call_soon(self._call_lost, None)
+                    return
+                if not self.capacity or self._proto_paused:
+                    self._proto_paused = False
+                    self._protocol.resume_writing()
 
     def net_reset(self):
         self.trace.ev("client", "reset")
@@ -238,6 +267,7 @@ def make_conn(loop, trace, conn, jitter=None):
         extra["ssl_object"] = FakeSSL(conn.get("alpn"))
         extra["sslcontext"] = True  # StreamReaderProtocol closes on EOF over TLS
     tr = SimTransport(loop, protocol, extra, trace, jitter)
+    tr.capacity = conn.get("write_buffer")
     protocol.connection_made(tr)
     writer = asyncio.StreamWriter(tr, protocol, reader, loop)
     return reader, writer, tr, protocol
